@@ -170,6 +170,17 @@ class Analyzer3:
                     self.broken = self.broken or 'BND3: %s: %s is read at index %s, a position that travels between functions as a number; ' \
                         'this analysis follows positions that travel as pointers' % (self.fn.where(node), key, ix['n'])
                     return
+                # an index kept below a length that was handed in (token[position] with position < token_length): the text is then
+                # delimited by that length, not by its terminator, which is what this analysis reasons about
+                pints = {p_['d']: p_['n'] for p_ in self.fn.params if self.u.ty(p_['ty'])['c'] == 'int'}
+                for x_ in self.fn.nodes():
+                    if x_.get('k') == 'bin' and x_.get('op') in ('<', '<=', '>', '>='):
+                        ds_ = {y_.get('d') for y_ in walk(x_) if y_.get('k') == 'ref'}
+                        if ix['d'] in ds_ and ds_ & set(pints):
+                            self.broken = self.broken or 'BND3: %s: %s is read at index %s, which is kept below the length %s handed in; a text ' \
+                                'delimited by a length is not what this analysis reasons about' % (
+                                    self.fn.where(node), key, ix['n'], pints[next(iter(ds_ & set(pints)))])
+                            return
             self.site('BND3', node, 'read %s at a variable index' % expr_str(node)[:40], ok, why,
                       'read:%s[%s]' % (key, expr_str(ix)))
 
